@@ -97,10 +97,16 @@ class Naming:
             if cand not in self._used and (cls in ('casepair', 'afmcase') or cand.lower() not in {u.lower() for u in self._used}):
                 return cand
         n = 0
-        while True:  # pool exhausted: derive a fresh one
-            cand = pool[idx % len(pool)] + ('_%d' % n if cls in ('plain', 'afmword') else ' %d' % n)
+        while True:  # pool exhausted: derive a fresh one, inside the character set of the class (no blank unless the class has blanks)
+            base = pool[idx % len(pool)]
             if cls in ('afmword', 'afmcase', 'afmkw'):
-                cand = pool[idx % len(pool)] + 'X%d' % n
+                cand = base + 'X%d' % n
+            elif cls in ('plain', 'under0'):
+                cand = base + '_%d' % n
+            elif cls in ('casepair', 'natural', 'numeric', 'digit0', 'substr', 'uvlkw', 'opword', 'nonascii', 'nonnfc'):
+                cand = base + '%d' % n
+            else:
+                cand = base + ' %d' % n
             if cand not in self._used:
                 return cand
             n += 1
